@@ -1,7 +1,7 @@
 (** C04 — Stream failures: resubscribe, per-stream nonces, cache kept, clean stop.
     Statements only; proofs are [exact] of lemmas in Proofs/SysProofs.v. *)
 From Xds Require Import Model.Base Model.Fqdn Model.Proto Model.Decode Model.Pick Model.Route Model.Mw Model.Sys Proofs.SysProofs.
-From Xds Require Import Model.DecodeCheck Model.SysCheck Proofs.WireProofs.
+From Xds Require Import Model.DecodeCheck Model.SysCheck Model.Queue Proofs.WireProofs Proofs.QueueProofs.
 Open Scope string_scope.
 
 (** After a non-authentication Recv failure a new stream is opened and every subscribed type - and only those -
@@ -72,3 +72,17 @@ Theorem C04_example :
   (s_stream s, option_map q_names (last_on TCl (s_stream s) sent), map (fun sq => (fst sq, q_nonce (snd sq))) sent, rcvd) =
   (1%N, Some ["c"; "b"; "a"], [(0%N, ""); (0%N, ""); (0%N, "n7"); (1%N, ""); (1%N, "")], [(0%N, "n7")]).
 Proof. exact wire_example_proof. Qed.
+
+(** With the asynchronous sender (Model/Queue.v): a request lost in a failing Send does not lose the subscription - when the
+    sender takes the next stream it re-subscribes every subscribed type from the current state; and the synchronous
+    schedule of that model is the instantaneous sending assumed by the theorems above. *)
+Theorem C04_lost_request_is_resubscribed : forall s t ws j,
+  tget t (q_sub s) = Some ws -> q_pending s = Some j -> last_sent t j (q_sent (qstep s (QPickup 0))) = Some ws.
+Proof. exact lost_request_is_resubscribed. Qed.
+Print Assumptions C04_lost_request_is_resubscribed.
+
+Theorem C04_synchronous_schedule : forall s t ws i, q_queue s = [] -> q_cur s = Some i ->
+  let s' := qstep (qstep s (QChange t ws)) QSend in
+  q_sent s' = (q_sent s ++ [(i, (t, ws))])%list /\ q_queue s' = [] /\ tget t (q_sub s') = Some ws.
+Proof. exact sync_send. Qed.
+Print Assumptions C04_synchronous_schedule.
